@@ -144,7 +144,9 @@ V_C02_Lifecycle ==
   UNION { { V("C02_Lifecycle", pid, w.t,
               {k \in {"KF_alive_after_error"} :
                  KF_alive_after_error(pid) /\ w.old = "error" /\ ND(pid, w.t).kind # "act"}
-              \cup {k \in {"KF_back_enclosing"} : KF_back_enclosing_anc(pid, w.t)})
+              \cup {k \in {"KF_back_enclosing"} : KF_back_enclosing_anc(pid, w.t)}
+              \cup {k \in {"KF_step_timeout_review"} :
+                      w.t \in TaskKeys(pid) /\ FiredStepRule(pid, w.t) /\ w.old = "completed"})
             : w \in procs[pid].viol } :
           pid \in { q \in Pids : Started(q) } }
 
@@ -321,7 +323,8 @@ Emits(pid, t) == ND(pid, t).kind \in {"workflow", "step"} \/ IsIrq(pid, t)
 V_C08_AtMostOne ==
   UNION { { V("C08_AtMostOne", pid, t,
               {k \in {"KF_nested_review_dup"} :
-                 KF_nested_review_dup(pid, t) /\ TS(pid, t).mcre <= 1})
+                 KF_nested_review_dup(pid, t) /\ TS(pid, t).mcre <= 1}
+              \cup {k \in {"KF_step_timeout_review"} : FiredStepRule(pid, t) /\ TS(pid, t).mcre <= 1})
             : t \in { x \in TaskKeys(pid) : TS(pid, x).mcre > 1 \/ TS(pid, x).mterm > 1 } }
           : pid \in LivePids }
 
